@@ -54,3 +54,16 @@ Theorem C20_backoff_shape : nth_wait 0 = second /\
   (forall k, (second <= nth_wait k <= wait_cap)%Z).
 Proof. exact (conj nth_wait_0 (conj nth_wait_doubles nth_wait_bounds)). Qed.
 Print Assumptions C20_backoff_shape.
+
+(* the client always holds a connection it was given: after a call with ANY script of outcomes - failed writes and reads,
+   failed and successful reconnects, a context which ends anywhere - the connection it is left with is the one it had or the
+   last one connectFn returned successfully (never "none": an abandoned reconnect does not take the old one away), and the
+   counter of connections obtained is consistent with it *)
+Theorem C20_client_keeps_a_connection : forall s,
+  (fst (run_held s) < snd (run_held s))%N /\ (snd (run_held s) <= 1 + N.of_nat (length s))%N.
+Proof. intros s. split; [apply held_exists; reflexivity | apply held_next_bound]. Qed.
+Print Assumptions C20_client_keeps_a_connection.
+Example C20_held_example :
+  run_held [EvWrite true false; EvRead None false; EvConnect true; EvWrite false false; EvConnect false] = (1, 2)%N /\
+  run_held [EvWrite false false; EvConnect false] = (0, 1)%N.
+Proof. vm_compute. auto. Qed.
